@@ -109,6 +109,34 @@ def run(pid: str, tier: str, seed: int, selftest=False, replay=None) -> int:
         text, argdom, opq = render(toks, an, fl, ln)
         sources.append(("small:" + " ".join(toks) + "|" + an, text, argdom, opq, [an], q % 4 // 2))
     rep.extra["small_scope_programs"] = len(progs)
+    # RoCC in a loop, inside the class the lowering handles (outside the two known findings): the loop body re-writes ONE operand of an
+    # instruction pair with a value that changes per iteration, the partner operand is configured once in front of the loop and stays;
+    # every emitted instruction has to carry the partner's value that is in effect
+    gop = ctx.get_acc("gemmini").generate_acc_op()
+    gfields = [k for k, _ in gop.field_items()]
+    glaunch = [k for k, _ in gop.launch_field_items()]
+    pairs2 = sorted({f[:-4] for f in gfields})[:2]
+    allf = [p + h for p in pairs2 for h in (".rs1", ".rs2")]
+    lnames = ", ".join(f'"{x}"' for x in glaunch)
+    ltys = ", ".join(["i64"] * len(glaunch) + ['!accfg.state<"gemmini">'])
+    def ginv(state_name, tok, fields_vals, ind):
+        args = ", ".join(f'"{f}" = {v} : i64' for f, v in fields_vals)
+        return [f'{ind}{state_name} = accfg.setup "gemmini" to ({args}) : !accfg.state<"gemmini">',
+                f'{ind}{tok} = "accfg.launch"({", ".join(["%v1"] * len(glaunch) + [state_name])}) <{{param_names = [{lnames}], accelerator = "gemmini"}}> : ({ltys}) -> !accfg.token<"gemmini">',
+                f'{ind}"accfg.await"({tok}) : (!accfg.token<"gemmini">) -> ()']
+    for wi, w in enumerate(allf):
+        for post in (0, 1):
+            lines = ["    %c0 = arith.constant 0 : index", "    %c1 = arith.constant 1 : index"]
+            lines += ginv("%s0", "%t0", list(zip(allf, ["%v0", "%v1", "%v2", "%v0"])), "    ")
+            lines += ["    scf.for %i = %c0 to %n0 step %c1 {", "      %ic = arith.index_cast %i : index to i64", "      %x = arith.addi %v0, %ic : i64"]
+            lines += ginv("%s1", "%t1", [(w, "%x")], "      ")
+            lines += ["    }"]
+            if post:
+                other = allf[(wi + 2) % 4]
+                lines += ginv("%s2", "%t2", [(other, "%v2")], "    ")
+            text = ("builtin.module {\n  func.func @f(%v0: i64, %v1: i64, %v2: i64, %n0: index, %n1: index, %b0: i1, %b1: i1) {\n"
+                    + "\n".join(lines) + "\n    func.return\n  }\n}\n")
+            sources.append((f"rocc-loop:{w}:post{post}", text, [[11], [12], [13], [0, 1, 2], [0], [0], [0]], [[0]], ["gemmini"], 0))
     for k in range(n_gen):
         text, argdom, opq, accs = gen_program(seed, k, ctx)
         sources.append((f"gen:{seed}:{k}", text, argdom, opq, accs, k % 2))
